@@ -22,6 +22,13 @@ def _one(ctx, sc, entry, stats, rng, sample=False):
     for rec in recs:
         v = View(rec, sc)
         dl = v.deadline
+        req = [e for e in rec.trace if e[0] == "sleep-req"]
+        if req:
+            # sleepers that hand back an awaitable: what the library REQUESTS counts, whether or not it then waits for it
+            ctx.inc("sleep_requests_to_awaitable_returning_sleepers", len(req))
+            tot = sum(e[2] for e in req if isinstance(e[2], (int, float)) and e[2] == e[2])
+            if tot > dl + TOL:
+                ctx.viol("total-sleep-exceeds-deadline", f"[{entry} call#{rec.idx}] the library asked the sleeper for {[e[2] for e in req]} = {tot} s in total; deadline_s={dl}", common.payload(sc, entry, rec.idx))
         for s in v.segs:
             if s.kind in ("exc", "res"):
                 d = s.t_fail - dl
@@ -78,7 +85,7 @@ def work(ctx, tier):
         ctx.inc("boundary_scenarios")
     n = (5000 if tier == "quick" else 150000) // ctx.nshards
     for k in range(n):
-        sc = gen.rand_scenario(rng, p_special=0.02, p_budget=0.2, p_handler=0.2, p_abort=0.1, ncalls=(1, 2), p_no_sleeper=0.3, p_strategy_objects=0.4, rf_time=True, p_via_config=0.3, p_via_attrs=0.25, p_attempt_timeout=0.15)
+        sc = gen.rand_scenario(rng, p_special=0.02, p_budget=0.2, p_handler=0.2, p_abort=0.1, ncalls=(1, 2), p_no_sleeper=0.3, p_strategy_objects=0.4, rf_time=True, p_via_config=0.3, p_via_attrs=0.25, p_attempt_timeout=0.15, exotic_callables=True)
         if k % 6 == 2:
             # a strategy that answers None on a later retry (the library rejects that): no sleep may be requested on its strength,
             # let alone one that no longer fits the remaining time
